@@ -156,6 +156,26 @@ def shard(ctx, si, payload):
                 with dask.config.set(scheduler="threads", num_workers=nw):
                     judge(batch(sub(n)), n, "scheduler", f"threaded scheduler, {nw} workers", {"scheduler": "threads", "workers": nw, "n": n})
     elif fam == "processes":
+        # a kernel object configured after construction (public attributes changed): the copy that
+        # travels to the worker processes must be the configured object, not a default one
+        kc = CphotAng(525.0)
+        kc.orbit_height = kc.zmax = kc.dtype(400.0)
+        kc.hist_bin_size = kc.dtype(2.0)
+        n_c = 101
+        cl = sched.VaryingCloud()
+        ref_c = [kc.run(*e, cl) for e in zip(*sub(n_c))]
+        ref_c = (np.asarray([o[0] for o in ref_c]), np.array([o[1] for o in ref_c]))
+        for name, kw in (("synchronous", {"scheduler": "synchronous"}), ("threads-4", {"scheduler": "threads", "num_workers": 4}), ("processes-2", {"scheduler": "processes", "num_workers": 2})):
+            try:
+                with dask.config.set(**kw):
+                    got = batch(sub(n_c), kernel=kc)
+            except Exception as e:
+                ctx.exception("scheduler", f"{name}: batch raised for a kernel object configured after construction", e, {"scheduler": name})
+                continue
+            ctx.count("configured-kernel", n_c)
+            ctx.distinct.add(("configured-kernel", name))
+            if not same(got, ref_c):
+                ctx.violation("scheduler", f"{name}: kernel object with orbit_height = zmax = 400 km, hist_bin_size = 2 km set after construction: batch of {n_c} differs from one-at-a-time evaluation on the same object: {describe_diff(got, ref_c)}", {"scheduler": name, "n": n_c, "configured": True})
         for nw in payload["workers"]:
             for n in sizes:
                 with dask.config.set(scheduler="processes", num_workers=nw):
@@ -273,7 +293,7 @@ def run(ctx):
     if T:
         P += [{"family": "processes", "workers": [4], "sizes": [2, 101, 250]}, {"family": "adversarial", "n": 15, "ps": 3, "nsched": 0, "enumerate": True}, {"family": "yield", "nseeds": 60}, {"family": "yield", "nseeds": 60}]
     core.run_shards(ctx, "nssmon.checks.c10", "shard", P, workers=min(16, len(P)), timeout=ctx.pick(900, 6000))
-    for m in ("scheduler", "partitions", "adversarial", "yield", "frozen-state", "faults", "faults-control"):
+    for m in ("scheduler", "configured-kernel", "partitions", "adversarial", "yield", "frozen-state", "faults", "faults-control"):
         ctx.require(m)
     return ctx.finish(
         rule="batches of {1,2,99,100,101,250} unique events, each with its own cloud top (a position-dependent cloud function), under every scheduler family; partition sizes {1,2,3,7,100,n,n+1}; adversarial start/release orders (seeded, and all P! start orders for P = 4 [5 in thorough]); yield-injected 4-thread runs with the shared kernel frozen; a failing event at every position of 25 and at {0,99,100,125,249} of 250; a case is a distinct (family, schedule / scheduler / partitioning / fault position); every one is non-trivial (it is compared with the sequential model or must raise)",
